@@ -158,6 +158,13 @@ def corr_exec(lhs_lines, wd, tag="exec"):
     with open(src, "w") as w:
         for l in lhs_lines:
             w.write(l.strip() + "\n")
+    if lhs_lines and all(l.startswith("fault ") for l in lhs_lines):
+        # fault-injection cases are executed by the strace sweep script, not in-process
+        rc, o = run([sys.executable, os.path.join(ROOT, "tools", "faults.py"), CORR, os.path.join(wd, "faults-replay"),
+                     "replay", src, out, "-"], cwd=ROOT, timeout=3600)
+        if rc != 0:
+            raise RuntimeError("faults.py replay failed: " + o)
+        return [l.rstrip("\n") for l in open(out)]
     rc, o = run([CORR, "exec", "-arg", src, "-out", out], cwd=ROOT, timeout=3600)
     if rc != 0:
         raise RuntimeError("corr exec failed: " + o)
@@ -355,6 +362,9 @@ def check(pid, tier, seed):
             cases = os.path.join(wd, f"{ename}.{s}.cases")
             stats = os.path.join(wd, f"{ename}.{s}.stats")
             cmd = [binary, ename, "-seed", str(seed * 1000 + s), "-n", str(n // shards), "-tier", tier, "-out", cases, "-stats", stats]
+            if eng.get("script"):
+                cmd = [sys.executable, os.path.join(ROOT, eng["script"]), binary, os.path.join(wd, ename + ".sweep"), tier,
+                       str(seed), cases, stats]
             if eng.get("arg"):
                 cmd += ["-arg", eng["arg"]]
             procs.append((subprocess.Popen(cmd, cwd=ROOT, env=penv, stdout=subprocess.PIPE, stderr=subprocess.STDOUT, text=True), cases, stats))
